@@ -93,7 +93,7 @@ def gen_marker(rng, n, tier):
             thr = [rng.choice([0.3, 3.3, 1.7e9, 1e-12, 35.0, -2.5, 1e300, 2.0 ** -1060]) for _ in range(nf)]
             near = lambda t: rng.choice([t, math.nextafter(t, math.inf), math.nextafter(t, -math.inf), t * (1 + 1e-12), t * (1 - 1e-12), t * (1 + 3e-10), t + abs(t) * 1e-15, 0.1 + 0.2, 3 * 1.1, None, 0.0])
             cols = [[near(thr[j]) for _ in range(k)] for j in range(nf)]
-        out.append({'mode': rng.choice([1, 2]), 'thr': thr, 'via': rng.choice(['fn', 'fn', 'collection']),
+        out.append({'mode': rng.choice([1, 2]), 'thr': thr, 'via': rng.choice(['fn', 'fn', 'collection']), 'nameset': rng.choice([None, None, None, 'ops', 'other']),
                     'cols': cols, 'scalar': nf == 1 and rng.random() < 0.5,
                     # a third of the cases first run another segmentation into the same output feature (other thresholds, other mode): the second run must overwrite it
                     'before': ([rng.choice([0.0, 1.0, 2.0, 2.5, -2.0]) for _ in range(nf)], rng.choice([1, 2])) if rng.random() < 0.33 else None})
@@ -107,6 +107,10 @@ def run_marker(case):
     k = len(case['cols'][0])
     tr = Track([Obs(ENUCoords(i, 0, 0), ObsTime.readUnixTime(i)) for i in range(k)])
     names = ['f%d' % j for j in range(len(case['cols']))]
+    if case.get('nameset') == 'ops':                  # legal feature names that contain operator characters: the name designates the feature, not an expression
+        names = ['a-b', 'a', 'b'][:len(names)]
+    elif case.get('nameset') == 'other':
+        names = ['speed_km/h', 'v (raw)', 'acc^2'][:len(names)]
     for nm, c in zip(names, case['cols']):
         tr.createAnalyticalFeature(nm, [nan if v is None else v for v in c])
     if case.get('before'):
@@ -119,7 +123,7 @@ def run_marker(case):
         sg.segmentation(tr, names[0], 'out', case['thr'][0], case['mode'])
     else:
         sg.segmentation(tr, names, 'out', list(case['thr']), case['mode'])
-    return {'out': [float(v) for v in tr['out']], 'cols': [[None if v != v else v for v in tr[nm]] for nm in names], 'names': tr.getListAnalyticalFeatures()}
+    return {'out': [float(v) for v in tr.getAnalyticalFeature('out')], 'cols': [[None if v != v else v for v in tr.getAnalyticalFeature(nm)] for nm in names], 'names': tr.getListAnalyticalFeatures()}
 
 
 def coq_marker(case, obs):
